@@ -614,13 +614,31 @@ def _float(ex, st, pos, named, node):
         for s1, isn in ex.fork(st, is_num(z), f'L{node.lineno}.float_num'):
             if isn: outs.append((s1, ZV('real', num(z))))
             else:
-                h = ex.spec.calls.get('float(str)')
-                if h is None: raise Unsupported('float() of a non-number')
+                h = ex.spec.calls.get('float(str)') or _float_of_str
                 outs.extend(h(ex, s1, v, node))
         return outs
     h = ex.spec.calls.get('float(str)')
     if h is not None: return h(ex, st, v, node)
+    if isinstance(v, ZV) and v.kind == 'str': return _float_of_str(ex, st, v, node)
     raise Unsupported(f'float({v!r})')
+
+
+float_parse = Function('float_parse', StringSort(), RealSort())        # float(s) for a string that Python's float() accepts
+
+
+def _float_of_str(ex, st, v, node):
+    """float(x) for x that is not a number: a string either parses (uninterpreted value; which strings parse is not modelled:
+    both outcomes are possible for every string) or raises ValueError; anything else raises TypeError"""
+    from .engine import Raise
+    z = to_val(v, st); outs = []
+    for s1, is_s in ex.fork(st, Val.is_S(z), f'L{node.lineno}.float_str'):
+        if is_s:
+            ok = s1.copy(); ok.label(f'L{node.lineno}.float_str_parses'); outs.append((ok, ZV('real', float_parse(Val.s(z)))))
+            bad = s1.copy(); bad.label(f'L{node.lineno}.float_str_rejected')
+            outs.append((bad, Raise(PExc('ValueError', val=Val.Obj(fresh('exc', IntSort())), where='call'))))
+        else:
+            outs.append((s1, Raise(PExc('TypeError', val=Val.Obj(fresh('exc', IntSort())), where='call'))))
+    return outs
 
 
 @builtin(int)
